@@ -5,6 +5,24 @@ package virtual
 // Contracts for the govc verifier (/verif). This file contains comments only;
 // it does not change the compiled package.
 
+// ---------------------------------------------------------------------------
+// Lock effects (C14)
+
+//@ pred b2i(b bool) := ite(b, 1, 0)
+
+// lockMutatingData returns with f.lock held.
 //@ func (*fileBackedFile).lockMutatingData
 //@   props C14 C16
 //@   lockeffect f.lock +1
+
+// getAndLockIfDirectory works on a LockPile borrowed from its caller: every
+// lock it acquires or releases goes through that pile, so the caller's
+// deferred UnlockAll releases exactly what is held.
+//@ func (*inMemoryDirectoryContents).getAndLockIfDirectory
+//@   props C14
+//@   nobalance
+//@   ensures all-lock-changes-go-through-the-pile:
+//@             forall l re_sync.TryLocker :: held(l) - old(held(l)) ==
+//@               b2i(pile[lockPile][l] > 0) - b2i(old(pile[lockPile][l]) > 0)
+//@   ensures never-drops-callers-locks:
+//@             forall l re_sync.TryLocker :: old(pile[lockPile][l]) > 0 ==> pile[lockPile][l] > 0
